@@ -132,45 +132,59 @@ Qed.
 Section Kernel.
   Variable P : alm_params (T:=R).
 
-  Lemma upd1_pos first ne e o σ : 0 < p_max_pen P -> 0 < σ -> 0 < upd1 P first ne e o σ.
-  Proof.
-    intros Hm Hs. unfold upd1. destruct (first || _); [|exact Hs]. numR.
-    set (a := p_Delta P * Rabs e / ne).
-    assert (1 <= (if Rlt_bool a 1 then 1 else a)) by (destruct (Rlt_bool_spec a 1); lra).
-    set (f := if Rlt_bool a 1 then 1 else a) in *.
-    assert (0 < f * σ) by nra. destruct (Rlt_bool_spec (f * σ) (p_max_pen P)); lra.
-  Qed.
+  Lemma nfmax_R a b : nfmax (T:=R) a b = Rmax a b.
+  Proof. unfold nfmax. cbn [nisnan NumR]. apply cmax_R. Qed.
+  Lemma nfmin_R a b : nfmin (T:=R) a b = Rmin a b.
+  Proof. unfold nfmin. cbn [nisnan NumR]. apply cmin_R. Qed.
 
-  Lemma upd1_ge first ne e o σ : 0 < σ -> σ <= p_max_pen P -> σ <= upd1 P first ne e o σ.
-  Proof.
-    intros Hs Hm. unfold upd1. destruct (first || _); [|lra]. numR.
-    set (a := p_Delta P * Rabs e / ne).
-    assert (1 <= (if Rlt_bool a 1 then 1 else a)) by (destruct (Rlt_bool_spec a 1); lra).
-    set (f := if Rlt_bool a 1 then 1 else a) in *.
-    assert (σ <= f * σ) by nra. destruct (Rlt_bool_spec (f * σ) (p_max_pen P)); lra.
-  Qed.
-
-  Lemma upd1_le_max first ne e o σ : σ <= p_max_pen P -> upd1 P first ne e o σ <= p_max_pen P.
-  Proof.
-    intros Hm. unfold upd1. destruct (first || _); [|lra]. numR.
-    match goal with |- context [Rlt_bool ?x ?y] => destruct (Rlt_bool_spec x y) end; lra.
-  Qed.
-
-  (* growth factor: exactly min(max_penalty, max(Δ|e|/‖e‖, 1) σ) where the update is applied *)
+  (* growth rule of one component: max(σ, min(max_penalty, max(Δ|e|/‖e‖, 1) σ)) where the update is applied *)
   Lemma upd1_value first ne e o σ :
     upd1 P first ne e o σ =
       if first || Rlt_bool (p_theta P * Rabs o) (Rabs e)
-      then Rmin (p_max_pen P) (Rmax (p_Delta P * Rabs e / ne) 1 * σ) else σ.
+      then Rmax σ (Rmin (p_max_pen P) (Rmax (p_Delta P * Rabs e / ne) 1 * σ)) else σ.
   Proof.
     unfold upd1. cbn [nltb NumR nabs nmul]. destruct (first || _); [|reflexivity].
-    unfold nfmin, nfmax. cbn [nisnan NumR]. rewrite cmax_R, cmin_R. reflexivity.
+    rewrite !nfmax_R, nfmin_R. reflexivity.
+  Qed.
+
+  (* never lowered — no hypothesis at all *)
+  Lemma upd1_ge first ne e o σ : σ <= upd1 P first ne e o σ.
+  Proof. rewrite upd1_value. destruct (first || _); [apply Rmax_l|lra]. Qed.
+
+  Lemma upd1_pos first ne e o σ : 0 < σ -> 0 < upd1 P first ne e o σ.
+  Proof. intros. pose proof (upd1_ge first ne e o σ). lra. Qed.
+
+  (* exact cap: never above max(σ, max_penalty) *)
+  Lemma upd1_le_bound first ne e o σ b : σ <= b -> p_max_pen P <= b -> upd1 P first ne e o σ <= b.
+  Proof.
+    intros Hs Hm. rewrite upd1_value. destruct (first || _); [|exact Hs].
+    apply Rmax_lub; [exact Hs|]. eapply Rle_trans; [apply Rmin_l|exact Hm].
+  Qed.
+
+  Lemma upd1_le_max first ne e o σ : σ <= p_max_pen P -> upd1 P first ne e o σ <= p_max_pen P.
+  Proof. intros. apply upd1_le_bound; lra. Qed.
+
+  (* a component at or above the cap is left exactly as it is *)
+  Lemma upd1_above_cap_unchanged first ne e o σ : p_max_pen P <= σ -> upd1 P first ne e o σ = σ.
+  Proof.
+    intros H. rewrite upd1_value. destruct (first || _); [|reflexivity].
+    apply Rmax_left. eapply Rle_trans; [apply Rmin_l|exact H].
   Qed.
 
   Lemma upd1_changed first ne e o σ : upd1 P first ne e o σ <> σ -> first = true \/ p_theta P * Rabs o < Rabs e.
   Proof.
-    unfold upd1. numR. destruct first; [auto|]. cbn [orb].
+    unfold upd1. cbn [nltb NumR nabs nmul]. destruct first; [auto|]. cbn [orb].
     destruct (Rlt_bool_spec (p_theta P * Rabs o) (Rabs e)); [auto|congruence].
   Qed.
+
+  (* the common new value of the single-factor rule *)
+  Definition single_new (σ0 : R) : R := Rmax σ0 (Rmin (p_max_pen P) (p_Delta P * σ0)).
+  Lemma single_new_eq σ0 : nfmax σ0 (nfmin (p_max_pen P) (p_Delta P * σ0)%num) = single_new σ0.
+  Proof. rewrite nfmax_R, nfmin_R. reflexivity. Qed.
+  Lemma single_new_ge σ0 : σ0 <= single_new σ0.
+  Proof. apply Rmax_l. Qed.
+  Lemma single_new_le_bound σ0 b : σ0 <= b -> p_max_pen P <= b -> single_new σ0 <= b.
+  Proof. intros. apply Rmax_lub; [assumption|]. eapply Rle_trans; [apply Rmin_l|assumption]. Qed.
 
   (* ---- whole vector *)
   Definition sigma_inv (m : nat) (Σ : list R) : Prop :=
@@ -185,18 +199,8 @@ Section Kernel.
     - apply map3_length; assumption.
   Qed.
 
-  Lemma upw_le_max first e o ne no Σ : length e = length Σ -> length o = length Σ ->
-    Forall (fun x => x <= p_max_pen P) Σ -> Forall (fun x => x <= p_max_pen P) (update_penalty_weights P first e o ne no Σ).
-  Proof.
-    intros Le Lo Hle. unfold update_penalty_weights. destruct (_ <=? _)%num; [exact Hle|].
-    destruct (p_single P).
-    - unfold upd_single. destruct Σ as [|σ0 Σ']; [constructor|]. destruct (first || _); [|exact Hle].
-      apply Forall_forall. intros x Hx. apply in_map_iff in Hx. destruct Hx as (? & <- & _).
-      numR. destruct (Rlt_bool_spec (p_Delta P * σ0) (p_max_pen P)); lra.
-    - eapply Forall2_Forall_r; [|exact Hle|apply map3_Forall2 with (Rel := fun z d => z <= p_max_pen P -> d <= p_max_pen P); try congruence].
-      + cbn. intros x y Hx Hxy. exact (Hxy Hx).
-      + intros. apply upd1_le_max; assumption.
-  Qed.
+  Lemma uniform_map_const (c : R) (l : list R) : uniform (map (fun _ => c) l).
+  Proof. intros a b Ha Hb. apply in_map_iff in Ha, Hb. destruct Ha as (? & <- & _), Hb as (? & <- & _). reflexivity. Qed.
 
   Lemma upw_changed first e o ne no Σ k : length e = length Σ -> length o = length Σ ->
     nth k (update_penalty_weights P first e o ne no Σ) 0 <> nth k Σ 0 ->
@@ -215,55 +219,73 @@ Section Kernel.
       + rewrite !nth_overflow in Hch; try congruence; try lia. rewrite map3_length; assumption.
   Qed.
 
-  Hypothesis Hmax : 0 < p_max_pen P.
-  Hypothesis Hsingle : p_single P = true -> 1 <= p_Delta P.
+  (* never decreases: per-component rule unconditionally; single-factor rule for a uniform Σ *)
+  Lemma upw_monotone m first e o ne no Σ : length e = m -> length o = m -> length Σ = m ->
+    (p_single P = true -> uniform Σ) -> Forall2 Rle Σ (update_penalty_weights P first e o ne no Σ).
+  Proof.
+    intros Le Lo LΣ Huni. unfold update_penalty_weights.
+    destruct (_ <=? _)%num; [apply Forall2_refl_R; intros; lra|].
+    destruct (p_single P) eqn:Hs.
+    - unfold upd_single. destruct Σ as [|σ0 Σ']; [constructor|].
+      destruct (first || _); [|apply Forall2_refl_R; intros; lra].
+      specialize (Huni eq_refl).
+      assert (Hall : forall x, In x (σ0 :: Σ') -> x = σ0) by (intros x Hx; apply Huni; [exact Hx|left; reflexivity]).
+      rewrite single_new_eq. pose proof (single_new_ge σ0) as Hnew.
+      revert Hall. generalize (σ0 :: Σ'). intros l Hall. induction l as [|x l IH]; cbn; constructor.
+      + rewrite (Hall x) by (left; reflexivity). exact Hnew.
+      + apply IH. intros; apply Hall; right; assumption.
+    - apply map3_Forall2; try congruence. intros. apply upd1_ge.
+  Qed.
 
-  Lemma uniform_map_const (c : R) (l : list R) : uniform (map (fun _ => c) l).
-  Proof. intros a b Ha Hb. apply in_map_iff in Ha, Hb. destruct Ha as (? & <- & _), Hb as (? & <- & _). reflexivity. Qed.
+  (* exact cap: componentwise never above a bound that dominates both the current value and max_penalty *)
+  Lemma upw_le_bound m first e o ne no Σ B : length e = m -> length o = m -> length Σ = m ->
+    (p_single P = true -> uniform Σ) ->
+    Forall (fun b => p_max_pen P <= b) B -> Forall2 Rle Σ B ->
+    Forall2 Rle (update_penalty_weights P first e o ne no Σ) B.
+  Proof.
+    intros Le Lo LΣ Huni HB H2. unfold update_penalty_weights.
+    destruct (_ <=? _)%num; [exact H2|].
+    destruct (p_single P) eqn:Hs.
+    - unfold upd_single. destruct Σ as [|σ0 Σ']; [exact H2|].
+      destruct (first || _); [|exact H2].
+      specialize (Huni eq_refl).
+      assert (Hall : forall x, In x (σ0 :: Σ') -> x = σ0) by (intros x Hx; apply Huni; [exact Hx|left; reflexivity]).
+      rewrite single_new_eq.
+      revert Hall H2 HB. generalize (σ0 :: Σ'). clear. intros l Hall H2. revert Hall.
+      induction H2 as [|x b l B' Hxb H2 IH]; intros Hall HB; cbn; constructor.
+      + inversion HB; subst. apply single_new_le_bound; [|assumption]. rewrite <- (Hall x) by (left; reflexivity). exact Hxb.
+      + apply IH; [intros; apply Hall; right; assumption|inversion HB; assumption].
+    - rewrite <- LΣ in Le, Lo. clear LΣ Huni Hs. revert e o Le Lo HB. induction H2 as [|x b l B' Hxb H2 IH]; intros [|ei e] [|oi o] Le Lo HB;
+        cbn in *; try discriminate; constructor.
+      + inversion HB; subst. apply upd1_le_bound; assumption.
+      + apply IH; try lia. inversion HB; assumption.
+  Qed.
 
+  Lemma upw_le_max m first e o ne no Σ : length e = m -> length o = m -> length Σ = m ->
+    (p_single P = true -> uniform Σ) ->
+    Forall (fun x => x <= p_max_pen P) Σ -> Forall (fun x => x <= p_max_pen P) (update_penalty_weights P first e o ne no Σ).
+  Proof.
+    intros Le Lo LΣ Huni Hle.
+    assert (H2 : Forall2 Rle (update_penalty_weights P first e o ne no Σ) (repeat (p_max_pen P) m)).
+    { apply upw_le_bound with (m := m); auto.
+      - apply Forall_forall. intros b Hb. apply repeat_spec in Hb. lra.
+      - rewrite <- LΣ. clear -Hle. induction Hle; cbn; constructor; auto. }
+    clear -H2. remember (repeat (p_max_pen P) m) as B eqn:HB. revert m HB.
+    induction H2 as [|x b l B' Hxb H2 IH]; intros m HB; constructor.
+    - destruct m; cbn in HB; [discriminate|]. inversion HB; subst. exact Hxb.
+    - destruct m; cbn in HB; [discriminate|]. inversion HB; subst. apply (IH m). reflexivity.
+  Qed.
 
   Lemma upw_inv m first e o ne no Σ : length e = m -> length o = m -> sigma_inv m Σ ->
     sigma_inv m (update_penalty_weights P first e o ne no Σ).
   Proof.
     intros Le Lo (LΣ & Hpos & Huni). split; [|split].
     - rewrite upw_length; congruence.
-    - unfold update_penalty_weights. destruct (_ <=? _)%num; [exact Hpos|].
-      destruct (p_single P) eqn:Hs.
-      + unfold upd_single. destruct Σ as [|σ0 Σ']; [constructor|]. destruct (first || _); [|exact Hpos].
-        apply Forall_forall. intros x Hx. apply in_map_iff in Hx. destruct Hx as (? & <- & _).
-        numR. inversion Hpos; subst. specialize (Hsingle eq_refl).
-        assert (0 < p_Delta P * σ0) by nra. destruct (Rlt_bool_spec (p_Delta P * σ0) (p_max_pen P)); lra.
-      + eapply Forall2_Forall_r; [|exact Hpos|apply map3_Forall2 with (Rel := fun z d => 0 < z -> 0 < d); try congruence].
-        * cbn. intros x y Hx Hxy. exact (Hxy Hx).
-        * intros. apply upd1_pos; assumption.
+    - pose proof (upw_monotone m first e o ne no Σ Le Lo LΣ Huni) as Hm.
+      clear -Hm Hpos. induction Hm; constructor; inversion Hpos; subst; [lra|auto].
     - intros Hs. unfold update_penalty_weights. destruct (_ <=? _)%num; [auto|]. rewrite Hs.
       unfold upd_single. destruct Σ as [|σ0 Σ']; [intros ? ? []|]. destruct (first || _); [apply uniform_map_const|auto].
   Qed.
-
-
-  Lemma upw_monotone m first e o ne no Σ : length e = m -> length o = m -> sigma_inv m Σ ->
-    Forall (fun x => x <= p_max_pen P) Σ -> Forall2 Rle Σ (update_penalty_weights P first e o ne no Σ).
-  Proof.
-    intros Le Lo (LΣ & Hpos & Huni) Hle. unfold update_penalty_weights.
-    destruct (_ <=? _)%num; [apply Forall2_refl_R; intros; lra|].
-    destruct (p_single P) eqn:Hs.
-    - unfold upd_single. destruct Σ as [|σ0 Σ']; [constructor|].
-      destruct (first || _); [|apply Forall2_refl_R; intros; lra].
-      specialize (Huni eq_refl). specialize (Hsingle eq_refl).
-      assert (Hall : forall x, In x (σ0 :: Σ') -> x = σ0) by (intros x Hx; apply Huni; [exact Hx|left; reflexivity]).
-      assert (H0 : 0 < σ0) by (inversion Hpos; assumption).
-      assert (H1 : σ0 <= p_max_pen P) by (inversion Hle; assumption).
-      assert (Hnew : σ0 <= nfmin (p_max_pen P) (p_Delta P * σ0)%num).
-      { numR. assert (σ0 <= p_Delta P * σ0) by nra. destruct (Rlt_bool_spec (p_Delta P * σ0) (p_max_pen P)); lra. }
-      revert Hall. generalize (σ0 :: Σ'). intros l Hall. induction l as [|x l IH]; cbn; constructor.
-      + rewrite (Hall x) by (left; reflexivity). exact Hnew.
-      + apply IH. intros; apply Hall; right; assumption.
-    - assert (H2 : Forall2 (fun z d => 0 < z -> z <= p_max_pen P -> z <= d) Σ (map3 (upd1 P first ne) e o Σ)).
-      { apply map3_Forall2; try congruence. intros. apply upd1_ge; assumption. }
-      clear -H2 Hpos Hle. induction H2; constructor; inversion Hpos; inversion Hle; subst; auto.
-  Qed.
-
-  (* growth happens only where the violation persists *)
 End Kernel.
 
 (* ------------------------------------------------------------------ initial penalties *)
@@ -498,9 +520,6 @@ Section Invariants.
 
   (* ---- (a) positivity, uniformity (single factor), size ---- *)
   Section Sigma.
-    Hypothesis Hmax : 0 < p_max_pen P.
-    Hypothesis Hsingle : p_single P = true -> 1 <= p_Delta P.
-
     Lemma st_inv_next i s r : st_inv s -> st_inv (next P pb i s r).
     Proof.
       intros (H1 & H2 & H3). unfold st_inv. cbn [next s_Sigma s_err s_err_old].
@@ -517,22 +536,29 @@ Section Invariants.
       - intros. apply st_inv_next; assumption.
     Qed.
 
-    (* ---- (b) monotone and capped, provided the loop starts within the cap ---- *)
-    Lemma loop_sigma_monotone script i s : st_inv s -> Forall (fun x => x <= p_max_pen P) (s_Sigma s) ->
-      Forall (fun r => Forall (fun x => x <= p_max_pen P) (it_Sigma r)) (fst (alm_loop P pb i s script)) /\
+    (* ---- (b) never decrease — whatever the initial penalties are ---- *)
+    Lemma loop_sigma_monotone script i s : st_inv s ->
       chain (fun a b => Forall2 Rle (it_Sigma a) (it_Sigma b)) (fst (alm_loop P pb i s script)).
     Proof.
-      intros Hs Hle.
-      apply (loop_trace_ind P pb (fun _ s => st_inv s /\ Forall (fun x => x <= p_max_pen P) (s_Sigma s))
-               (fun r => Forall (fun x => x <= p_max_pen P) (it_Sigma r))
+      intros Hs.
+      apply (loop_trace_ind P pb (fun _ s => st_inv s) (fun _ => True)
                (fun a b => Forall2 Rle (it_Sigma a) (it_Sigma b))); auto.
-      - intros ? ? ? (_ & H). exact H.
-      - intros i' s' r ((H1 & H2 & H3) & H4) _. split; [apply st_inv_next; split; auto|].
-        cbn [next s_Sigma]. destruct H1 as (L & _). apply upw_le_max; auto.
-        + rewrite err_of_length; congruence.
-        + congruence.
-      - intros i' s' r r' ((H1 & H2 & H3) & H4) _. cbn [mkrec it_Sigma next s_Sigma].
+      - intros. apply st_inv_next; assumption.
+      - intros i' s' r r' ((H1 & _ & H1u) & H2 & H3) _. cbn [mkrec it_Sigma next s_Sigma].
         apply upw_monotone with (m := m); auto. apply err_of_length; assumption.
+    Qed.
+
+    (* ---- (b') exact cap: every component stays below any bound dominating its initial value and max_penalty ---- *)
+    Lemma loop_sigma_bound script i s B : st_inv s ->
+      Forall (fun b => p_max_pen P <= b) B -> Forall2 Rle (s_Sigma s) B ->
+      Forall (fun r => Forall2 Rle (it_Sigma r) B) (fst (alm_loop P pb i s script)).
+    Proof.
+      intros Hs HB H2.
+      apply (loop_trace_ind P pb (fun _ s => st_inv s /\ Forall2 Rle (s_Sigma s) B)
+               (fun r => Forall2 Rle (it_Sigma r) B) (fun _ _ => True)); auto.
+      - intros ? ? ? (_ & H). exact H.
+      - intros i' s' r (((H1 & H1p & H1u) & H3 & H4) & H5) _. split; [apply st_inv_next; repeat split; auto|].
+        cbn [next s_Sigma]. apply upw_le_bound with (m := m); auto. apply err_of_length; assumption.
     Qed.
   End Sigma.
 
@@ -656,12 +682,11 @@ Section Run.
 
   (* (1) penalties handed to the inner solver are positive (and uniform with single_penalty_factor) *)
   Lemma run_sigma_positive script :
-    0 < p_max_pen P -> (p_single P = true -> 1 <= p_Delta P) ->
     sigma_inv P (pb_m pb) (initial_sigma P (pb_m pb) f0 g0 Σ0) ->
     Forall (fun r => Forall (fun x => 0 < x) (it_Sigma r) /\ length (it_Sigma r) = pb_m pb)
            (fst (alm_run P pb f0 g0 nanv Σ0 y0 script)).
   Proof.
-    intros Hmax Hs Hinit. run_cases script.
+    intros Hinit. run_cases script.
     - constructor.
     - constructor.
     - constructor; [|constructor]. cbn. split; [constructor|]. symmetry. apply Nat.eqb_eq. exact Hm0.
@@ -669,19 +694,46 @@ Section Run.
       intros r (H1 & H2 & _). split; assumption.
   Qed.
 
-  (* (2) never decrease, never exceed max_penalty — provided the initial ones do not *)
-  Lemma run_sigma_monotone_capped script :
-    0 < p_max_pen P -> (p_single P = true -> 1 <= p_Delta P) ->
+  (* (2) never decrease — also when the initial penalties exceed max_penalty *)
+  Lemma run_sigma_monotone script :
     sigma_inv P (pb_m pb) (initial_sigma P (pb_m pb) f0 g0 Σ0) ->
-    Forall (fun x => x <= p_max_pen P) (initial_sigma P (pb_m pb) f0 g0 Σ0) ->
-    Forall (fun r => Forall (fun x => x <= p_max_pen P) (it_Sigma r)) (fst (alm_run P pb f0 g0 nanv Σ0 y0 script)) /\
     chain (fun a b => Forall2 Rle (it_Sigma a) (it_Sigma b)) (fst (alm_run P pb f0 g0 nanv Σ0 y0 script)).
   Proof.
-    intros Hmax Hs Hinit Hcap. run_cases script.
-    - split; [constructor|exact I].
-    - split; [constructor|exact I].
-    - split; [repeat constructor|exact I].
-    - apply loop_sigma_monotone; auto. apply init_st_inv; exact Hinit.
+    intros Hinit. run_cases script; try exact I.
+    apply loop_sigma_monotone. apply init_st_inv; exact Hinit.
+  Qed.
+
+  (* (2') exact cap: component k never exceeds max(initial Σ_k, max_penalty) *)
+  Lemma run_sigma_bound script :
+    sigma_inv P (pb_m pb) (initial_sigma P (pb_m pb) f0 g0 Σ0) ->
+    Forall (fun r => Forall2 Rle (it_Sigma r) (map (fun s0 => Rmax s0 (p_max_pen P)) (initial_sigma P (pb_m pb) f0 g0 Σ0)))
+           (fst (alm_run P pb f0 g0 nanv Σ0 y0 script)).
+  Proof.
+    intros Hinit. run_cases script.
+    - constructor.
+    - constructor.
+    - constructor; [|constructor]. cbn [it_Sigma]. destruct Hinit as (L & _). apply Nat.eqb_eq in Hm0.
+      rewrite Hm0 in L |- *. destruct (initial_sigma P 0 f0 g0 Σ0); [constructor|discriminate].
+    - apply loop_sigma_bound.
+      + apply init_st_inv; exact Hinit.
+      + apply Forall_forall. intros b Hb. apply in_map_iff in Hb. destruct Hb as (? & <- & _). apply Rmax_r.
+      + cbn [init_state s_Sigma]. generalize (initial_sigma P (pb_m pb) f0 g0 Σ0). intros l.
+        induction l; cbn; constructor; [apply Rmax_l|assumption].
+  Qed.
+
+  (* (2'') hence never above max_penalty when the initial ones are not *)
+  Lemma run_sigma_le_max script :
+    sigma_inv P (pb_m pb) (initial_sigma P (pb_m pb) f0 g0 Σ0) ->
+    Forall (fun x => x <= p_max_pen P) (initial_sigma P (pb_m pb) f0 g0 Σ0) ->
+    Forall (fun r => Forall (fun x => x <= p_max_pen P) (it_Sigma r)) (fst (alm_run P pb f0 g0 nanv Σ0 y0 script)).
+  Proof.
+    intros Hinit Hcap. eapply Forall_impl; [|apply run_sigma_bound; exact Hinit].
+    intros r H2. cbv beta in H2. revert H2 Hcap. generalize (it_Sigma r) (initial_sigma P (pb_m pb) f0 g0 Σ0).
+    intros l l0 H2. remember (map (fun s0 : R => Rmax s0 (p_max_pen P)) l0) as B eqn:HB. revert l0 HB.
+    induction H2 as [|x b l B' Hxb H2 IH]; intros l0 HB Hcap; constructor.
+    - destruct l0 as [|s0 l0]; [discriminate|]. cbn in HB. inversion HB; subst. inversion Hcap; subst.
+      rewrite Rmax_right in Hxb by assumption. exact Hxb.
+    - destruct l0 as [|s0 l0]; [discriminate|]. cbn in HB. inversion HB; subst. inversion Hcap; subst. apply (IH l0); auto.
   Qed.
 
   (* (3) growth only where the violation persists (no hypothesis on the parameters at all) *)
@@ -832,14 +884,6 @@ Proof.
   destruct (rec_exit P (mkrec P pb (S i) (next P pb i s r1) r2)); [exists []; reflexivity|]. cbn [fst]. eexists; reflexivity.
 Qed.
 
-(* a penalty above max_penalty is LOWERED to max_penalty by the first update that touches it *)
-Lemma upd1_lowers_above_cap (P : alm_params (T:=R)) ne e o σ :
-  p_max_pen P < σ -> upd1 P true ne e o σ <= p_max_pen P /\ upd1 P true ne e o σ < σ.
-Proof.
-  intros H. unfold upd1. cbn [orb]. numR.
-  match goal with |- context [Rlt_bool ?x ?y] => destruct (Rlt_bool_spec x y) end; lra.
-Qed.
-
 (* initial_tolerance < tolerance: the second inner solve gets a LARGER tolerance than the first *)
 Lemma next_tol_increases (P : alm_params (T:=R)) pb i s r : s_eps s < p_tol P ->
   s_eps s < s_eps (next P pb i s r) /\ p_tol P <= s_eps (next P pb i s r).
@@ -897,26 +941,23 @@ Section Witness.
     destruct (Rle_bool_spec 1 (1/4)); [lra|]. rewrite HΣ, Ho. reflexivity.
   Qed.
 
-  (* caller Σ = 128 > max_penalty = 64: the second inner solve gets a SMALLER penalty *)
-  Lemma sigma_monotone_refuted_without_cap :
-    exists (P : alm_params (T:=R)) pb f0 g0 nanv Σ0 y0 script,
-      0 < p_max_pen P /\ (p_single P = true -> 1 <= p_Delta P) /\
-      sigma_inv P (pb_m pb) (initial_sigma P (pb_m pb) f0 g0 Σ0) /\
-      ~ chain (fun a b => Forall2 Rle (it_Sigma a) (it_Sigma b)) (fst (alm_run P pb f0 g0 nanv Σ0 y0 script)).
+  (* caller Σ = 128 > max_penalty = 64 (allowed by the property): the second inner solve gets exactly 128 again —
+     not lowered to the cap, not raised either *)
+  Lemma w_sigma_above_cap_kept :
+    let P := wP 1 (1/4) in
+    sigma_inv P (pb_m wpb) (initial_sigma P (pb_m wpb) 0 [0] (Some [128])) /\
+    exists a b tr', fst (alm_run P wpb 0 [0] 0 (Some [128]) [0] [wr; wr]) = a :: b :: tr' /\
+      it_Sigma a = [128] /\ it_Sigma b = [128] /\ p_max_pen P < 128.
   Proof.
-    exists (wP 1 (1/4)), wpb, 0, [0], 0, (Some [128]), [0], [wr; wr].
-    change (pb_m wpb) with 1%nat. rewrite (w_accept 128) by lra.
-    split; [cbn; lra|]. split; [cbn; discriminate|]. split.
+    cbv zeta. change (pb_m wpb) with 1%nat. rewrite (w_accept 128) by lra. split.
     - split; [reflexivity|]. split; [repeat constructor; lra|discriminate].
-    - destruct (w_trace 1 (1/4) (Some [128]) 0) as (tr' & ->). intros [H _].
-      cbn [it_Sigma mkrec] in H.
-      rewrite (w_next_sigma 1 (1/4) 0 _ 128) in H.
-      + cbn [init_state s_Sigma] in H. change (pb_m wpb) with 1%nat in H. rewrite (w_accept 128) in H by lra.
-        inversion H as [|? ? ? ? Hle _]; subst.
-        destruct (upd1_lowers_above_cap (wP 1 (1/4)) (Rabs 1) 1 0 128) as [_ Hlt]; [cbn; lra|]. lra.
-      + cbn [init_state s_Sigma]. change (pb_m wpb) with 1%nat. apply w_accept. lra.
-      + reflexivity.
-      + reflexivity.
+    - destruct (w_trace 1 (1/4) (Some [128]) 0) as (tr' & ->).
+      do 3 eexists. split; [reflexivity|]. cbn [it_Sigma mkrec].
+      assert (Hi : s_Sigma (init_state (wP 1 (1 / 4)) wpb 0 [0] 0 (Some [128]) [0]) = [128]).
+      { cbn [init_state s_Sigma]. change (pb_m wpb) with 1%nat. apply w_accept. lra. }
+      split; [exact Hi|]. split; [|cbn; lra].
+      rewrite (w_next_sigma 1 (1/4) 0 _ 128); [|exact Hi|reflexivity|reflexivity].
+      rewrite upd1_above_cap_unchanged; [reflexivity|cbn; lra].
   Qed.
 
   (* initial_tolerance = 1/2 < tolerance = 1: first solve below the final tolerance, then the tolerance goes UP *)
@@ -961,7 +1002,8 @@ Section Witness.
     do 3 eexists. split; [reflexivity|]. cbn [it_Sigma it_tol it_y mkrec]. split; [exact Hi|]. split; [|split; [reflexivity|split]].
     - rewrite (w_next_sigma 1 (1/4) 0 _ 1); [|exact Hi|reflexivity|reflexivity].
       rewrite upd1_value. cbn [orb p_max_pen p_Delta wP]. rewrite Rabs_R1.
-      replace (4 * 1 / 1) with 4 by field. unfold Rmax, Rmin. repeat destruct (Rle_dec _ _); try lra. f_equal; lra.
+      replace (4 * 1 / 1) with 4 by field. rewrite (Rmax_left 4 1) by lra. replace (4 * 1) with 4 by ring.
+      rewrite (Rmin_right 64 4) by lra. rewrite (Rmax_right 1 4) by lra. reflexivity.
     - cbn [next s_eps init_state p_init_tol p_rho p_tol wP]. unfold nfmax. cbn [nisnan NumR]. rewrite cmax_R. cbn [nmul NumR].
       unfold Rmax. destruct (Rle_dec _ _); lra.
     - unfold y_in_of. cbn. unfold proj_mult1. numR. rbool; try lra. f_equal; lra.
